@@ -1,6 +1,7 @@
 //! Shared helpers for the C20 (crux_cli codegen) harness.
 pub mod renumber;
 pub mod rng;
+pub mod synth;
 
 use rng::Rng;
 use rustdoc_types::Crate;
